@@ -883,7 +883,6 @@ class C10(fw.Check):
         writer = RDFWriter(docs, **kw)
         changed = False                        # something already exported changed or went away
         exported = False
-        prev = None
         tmp = None
         if any(st["entry"] == "file" or st.get("refused") == "nodir" for st in case["steps"]):
             tmp = tempfile.mkdtemp(prefix="c10_")
@@ -965,8 +964,7 @@ class C10(fw.Check):
                     so["imported_raw"] = {"raised": fw.exc_name(exc)}
                 # the same documents through a writer of their own
                 ftext = RDFWriter(list(docs), **kw).get_rdf_str(fmt)
-                so["fresh_original_raw"] = [self.raw_doc(d) for d in docs]
-                volatile = now_ids ^ self.all_ids(so["fresh_original_raw"])
+                volatile = now_ids ^ self.all_ids([self.raw_doc(d) for d in docs])
                 f = canon_triples_multi(rdflib.Graph().parse(data=ftext, format=fmt), value_pred)
 
                 def stable(t):
@@ -979,16 +977,6 @@ class C10(fw.Check):
                     missing, extra = [], []
                 so["n_missing"], so["missing"] = len(missing), missing[:3]
                 so["n_extra"], so["extra"] = len(extra), extra[:3]
-                gs = canon_triples_multi(parsed, value_pred, shorten=True)
-                so["kept"] = prev is None or prev <= gs
-                prev = gs
-                if changed:
-                    try:
-                        so["fresh_imported_raw"] = [self.raw_doc(d) for d in RDFReader().from_string(ftext, fmt)]
-                    except Exception as exc:
-                        so["fresh_imported_raw"] = {"raised": fw.exc_name(exc)}
-                else:
-                    del so["fresh_original_raw"]
         finally:
             if tmp:
                 shutil.rmtree(tmp, ignore_errors=True)
@@ -1397,10 +1385,11 @@ class C10(fw.Check):
 
     def oracle_hist(self, case, obs):
         """Every export of a writer is an export of the documents as they are at that moment. Weaker
-        reading where the statement leaves room: (1) several identical value nodes per Property (one per
-        conversion) count as one; (2) after something that had already been exported was changed or
-        removed only 'nothing of the current documents is missing' is demanded of the graph, not
-        'nothing else is there' - the import clause is demanded always."""
+        reading where the statement leaves room: several identical value nodes per Property count as
+        one. Since the writer starts every conversion with an empty graph (fix 5a93236) 'nothing else is
+        there' is demanded of every export, also after something already exported was changed or
+        removed (before, only 'nothing of the current documents is missing' and the import clause were
+        demanded then)."""
         out = []
         for k, so in enumerate(obs["steps"]):
             fails = []
@@ -1413,7 +1402,7 @@ class C10(fw.Check):
                                  % (so["n_missing"], so["missing"]))
                 if so["untyped"]:
                     fails.append("objects without a typed node in the export: %s" % so["untyped"])
-                if so["n_extra"] and not so["changed"]:
+                if so["n_extra"]:
                     fails.append("the export has %d triples that are not of the current documents, e.g. %s"
                                  % (so["n_extra"], so["extra"]))
                 fails += self.cmp_docs(so["original_raw"], so["imported_raw"], so["fmt"])
@@ -1509,36 +1498,10 @@ class C10(fw.Check):
         key = self.value_key(fmt, case, obs, failure)
         if key is not None:
             return key
-        if step is not None and self.stale_only(obs["steps"][step]):
-            return "reused_writer_keeps_earlier_triples"
-        if st == "rreuse" and failure.startswith("reader used twice: second import returned") \
-                and self.earlier_documents_only(case, obs):
-            return "reused_reader_returns_earlier_documents"
+        # reused_writer_keeps_earlier_triples / reused_reader_returns_earlier_documents are fixed
+        # (5a93236, 50b9c82): a writer or reader that carries anything over from an earlier call is a
+        # violation again
         return None
-
-    def stale_only(self, so):
-        """narrow: the writer was used before, something it had exported was changed or removed since,
-        its graph still has everything of the current documents and everything it had at the previous
-        export (so all that is wrong is what it kept), and a writer of their own exports the same
-        documents faithfully"""
-        if not so.get("changed") or "export_raised" in so or so.get("n_missing") or so.get("untyped"):
-            return False
-        if not so.get("kept") or "fresh_imported_raw" not in so:
-            return False
-        rest = [f for f in self.cmp_docs(so["fresh_original_raw"], so["fresh_imported_raw"], so["fmt"])
-                if self.value_key(so["fmt"], {}, {}, f) is None]
-        return not rest
-
-    def earlier_documents_only(self, case, obs):
-        """narrow: the second call returned exactly the documents of the first call plus its own"""
-        first, second = obs.get("first"), obs.get("second")
-        if not isinstance(first, list) or not isinstance(second, list):
-            return False
-        want = sorted([d["id"] for d in first] + [d["id"] for d in obs["orig_b"]])
-        if sorted(d["id"] for d in second) != want:
-            return False
-        n = len(first)
-        return [fw.canon(d) for d in second[:n]] == [fw.canon(d) for d in first]
 
     def value_key(self, fmt, case, obs, failure):
         import json
